@@ -20,6 +20,22 @@ from harness.gen_tlc import light
 LEVEL = "model_checking"
 META = {"extra": True, "title": "redeclaration rules of the cdef() environment (extra coverage)"}
 
+CFG_INC = """SPECIFICATION Spec
+CONSTANTS Variant = "%s"
+ MaxSteps = %d
+ Emit = %s
+%s
+CHECK_DEADLOCK FALSE
+"""
+LAWS_INC = ["IntsImmutable", "BindImmutable", "MacroConsistent", "OkMeansDeclared", "IncNeverOverrides", "IncShares",
+            "IncIdempotent", "FreshDisjoint"]
+
+
+def cfg_inc(variant="faithful", steps=4, emit=False, invs=LAWS_INC):
+    return CFG_INC % (variant, steps, "TRUE" if emit else "FALSE",
+                      "\n".join("INVARIANT " + i for i in invs) + ("\nCONSTRAINT EmitHist" if emit else ""))
+
+
 CFG = """SPECIFICATION Spec
 CONSTANTS Variant = "%s"
  TNames = {"t1"}
@@ -79,22 +95,39 @@ def classify(e):
 
 
 def run_history(calls):
-    """calls: [(items, override)] -> recorded trace"""
+    """calls: [(items, override)] or [(op, items, override)] with op in a / b / inc -> recorded trace"""
     import cffi
-    ffi = cffi.FFI()
+    ffis = {"a": cffi.FFI(), "b": cffi.FFI()}
     tr = []
-    for items, ov in calls:
-        src = "\n".join(render_item(it) for it in items) + "\n"
+    for c in calls:
+        op, items, ov = c if len(c) == 3 else ("b",) + tuple(c)
+        ffi = ffis["a" if op == "a" else "b"]
         try:
             with warnings.catch_warnings():
                 warnings.simplefilter("ignore")
-                ffi.cdef(src, override=ov)
+                if op == "inc":
+                    ffi.include(ffis["a"])
+                else:
+                    ffi.cdef("\n".join(render_item(it) for it in items) + "\n", override=ov)
             err = ""
         except Exception as e:
             err = classify(e)
         d, i = project(ffi)
-        tr.append({"items": [list(it) for it in items], "override": ov, "err": err, "decl": d, "ints": i})
+        tr.append({"op": op, "items": [list(it) for it in items], "override": ov, "err": err, "decl": d, "ints": i})
     return tr
+
+
+def random_inc_history(rng):
+    """histories over two FFIs: cdef() on either, b.include(a) at any time (also twice)"""
+    h = []
+    for items, ov in random_history(rng):
+        r = rng.random()
+        if r < 0.25:
+            h.append(("inc", [], False))
+        h.append(("a" if rng.random() < 0.4 else "b", items, ov and r >= 0.25))
+    if rng.random() < 0.5:
+        h.append(("inc", [], False))
+    return h
 
 
 def random_history(rng):
@@ -166,9 +199,19 @@ def design(ctx):
     BROKEN = ("override-consts", "override-sticky")
     for variant in BROKEN:
         jobs["broken_" + variant] = dict(cfg_text=cfg(variant=variant, calls=2), workers=2)
-    with ThreadPoolExecutor(8) as ex:
+    inc = {"include_faithful": dict(cfg_text=cfg_inc(steps=4 if ctx.quick else 5), workers=4, coverage=True)}
+    BROKEN_INC = ("include-copies", "include-overrides")
+    for variant in BROKEN_INC:
+        inc["broken_" + variant] = dict(cfg_text=cfg_inc(variant=variant, steps=3), workers=2)
+    with ThreadPoolExecutor(10) as ex:
         futs = {n: ex.submit(core.tlc, "MC_Redecl", env=light(), **kw) for n, kw in jobs.items()}
+        futs.update({n: ex.submit(core.tlc, "MC_RedeclInc", env=light(), **kw) for n, kw in inc.items()})
         res = {n: f.result() for n, f in futs.items()}
+    ctx.add_tlc("include_faithful", res["include_faithful"])
+    for variant in BROKEN_INC:
+        ctx.add_tlc("broken_" + variant, res["broken_" + variant], require_ok=False, count_states=False)
+        if not res["broken_" + variant].invariant_violated:
+            raise core.MachineryError("broken variant %s was accepted by the include laws" % variant)
     for n in ("faithful_single", "faithful_pairs"):
         ctx.add_tlc(n, res[n])
     ctx.cov["exhaustive"] = True
@@ -184,15 +227,21 @@ def design(ctx):
 
 
 def spec_histories(ctx):
-    calls = 2 if ctx.quick else 3
-    r = core.tlc("MC_Redecl", cfg_text=cfg(calls=calls, emit=True, invs=[]), workers=1, env=light(), timeout=1800)
-    ctx.add_tlc("emit", r, count_states=False)
+    """maximal histories of both machines, each step normalised to (op, items, override, err, decl, ints)"""
     from harness import tlaval
+    calls = 2 if ctx.quick else 3
+    r1 = core.tlc("MC_Redecl", cfg_text=cfg(calls=calls, emit=True, invs=[]), workers=1, env=light(), timeout=1800)
+    ctx.add_tlc("emit", r1, count_states=False)
+    r2 = core.tlc("MC_RedeclInc", cfg_text=cfg_inc(steps=3 if ctx.quick else 4, emit=True, invs=[]), workers=1,
+                  env=light(), timeout=1800)
+    ctx.add_tlc("emit_include", r2, count_states=False)
     hs = []
-    for t in _orig_tuples(r.out, "HIST"):
-        h = tlaval.parse_value(t[0])
-        hs.append(h)
-    if not hs:
+    for t in _orig_tuples(r1.out, "HIST"):
+        hs.append([("b",) + tuple(st) for st in tlaval.parse_value(t[0])])
+    n1 = len(hs)
+    for t in _orig_tuples(r2.out, "HIST"):
+        hs.append([tuple(st) for st in tlaval.parse_value(t[0])])
+    if not n1 or len(hs) == n1:
         raise core.MachineryError("TLC emitted no history")
     return hs
 
@@ -208,24 +257,24 @@ def run(ctx):
         hs = spec_histories(ctx)
         traces, mismatch = [], 0
         for h in hs:
-            calls = [([conv_item(it) for it in st[0]], st[1]) for st in h]
+            calls = [(st[0], [conv_item(it) for it in st[1]], st[2]) for st in h]
             tr = run_history(calls)
             ctx.case(distinct_key=json.dumps(tr[-1]["decl"]) + json.dumps(tr[-1]["ints"]))
             for st, rec in zip(h, tr):
-                pred_decl = sorted([list(x) for x in st[3]])
-                pred_ints = sorted([list(x) for x in st[4]])
-                if st[2] != rec["err"] or pred_decl != rec["decl"] or pred_ints != rec["ints"]:
+                pred_decl = sorted([list(x) for x in st[4]])
+                pred_ints = sorted([list(x) for x in st[5]])
+                if st[3] != rec["err"] or pred_decl != rec["decl"] or pred_ints != rec["ints"]:
                     mismatch += 1
                     if mismatch <= 5:
                         print("NOTE: X01 replayed model history differs from the code: predicted %r got %r"
-                              % ((st[2], pred_decl, pred_ints), (rec["err"], rec["decl"], rec["ints"])))
+                              % ((st[3], pred_decl, pred_ints), (rec["err"], rec["decl"], rec["ints"])))
                     break
             traces.append(tr)
         ctx.sample({"kind": "model-history", "trace": traces[len(traces) // 2]})
         n = 1500 if ctx.quick else 20000
         rnd = []
-        for _ in range(n):
-            tr = run_history(random_history(ctx.rng))
+        for j in range(n):
+            tr = run_history(random_inc_history(ctx.rng) if j % 2 else random_history(ctx.rng))
             ctx.case(distinct_key=json.dumps(tr[-1]["decl"]) + json.dumps(tr[-1]["ints"]))
             rnd.append(tr)
         ctx.sample({"kind": "random", "trace": rnd[0]})
@@ -243,7 +292,7 @@ def run(ctx):
 def replay(ctx, obj):
     core.tla_tuples = _tuples_all
     tr = obj["replay"]["trace"]
-    calls = [([tuple(it) for it in st["items"]], st["override"]) for st in tr]
+    calls = [(st.get("op", "b"), [tuple(it) for it in st["items"]], st["override"]) for st in tr]
     validate(ctx, [run_history(calls)], "replay")
     core.tla_tuples = _orig_tuples
 
